@@ -244,7 +244,19 @@ func init() {
 					// which the iterator must load MORE than one further chunk before it may yield (harness shared with C20)
 					js = append(js, &Job{Module: "mcap", Harness: "VC20Slots", Params: P("n", 5, "per", 2, "ord", 1+rev, "win", 1, "grow", 0), TimeoutS: 1800})
 				}
+				// long queues with heavy ties (times = symbolic base + small pattern): 14 and 30 messages in one chunk,
+				// 26 messages in two overlapping chunks (14+12)
+				ties := func(n, per, pat int) {
+					js = append(js, &Job{Module: "mcap", Harness: "VC03Ties", Params: P("n", n, "per", per, "pat", pat, "rev", rev), TimeoutS: 1800})
+				}
+				ties(20, 20, 0)
+				ties(26, 14, 3)
 				if tier == "thorough" {
+					ties(14, 14, 0)
+					ties(30, 30, 0)
+					ties(30, 30, 2)
+					ties(20, 20, 1)
+					ties(40, 14, 0)
 					add(6, 2, rev)
 					add(6, 3, rev)
 					add(7, 3, rev)
@@ -253,10 +265,10 @@ func init() {
 			return js
 		},
 		bounds: map[string]any{
-			"quick":    map[string]any{"files": "3 messages in 3 chunks; 4 messages in 2 and in 4 chunks; 5 messages in 3 chunks (2+2+1) and in 2 chunks (3+2, 4+1)", "channels": 2, "symbolic": "every log time (full 64 bit), payload bytes", "reads": "each order twice; plus a log-time-ordered read under a symbolic window [s,e) on the 2+2+1 file (sortedness, and exactly the messages inside the window)"},
+			"quick":    map[string]any{"long_queues_with_ties": "20 messages in one chunk and 26 in two overlapping chunks (thorough: up to 40), log times = one symbolic 64-bit base + a concrete small pattern with many equal values; file order among all pairs of equal-time messages of a chunk", "files": "3 messages in 3 chunks; 4 messages in 2 and in 4 chunks; 5 messages in 3 chunks (2+2+1) and in 2 chunks (3+2, 4+1)", "channels": 2, "symbolic": "every log time (full 64 bit), payload bytes", "reads": "each order twice; plus a log-time-ordered read under a symbolic window [s,e) on the 2+2+1 file (sortedness, and exactly the messages inside the window)"},
 			"thorough": map[string]any{"files": "as quick + 6 messages (2 or 3 per chunk) and 7 messages (3 per chunk)", "channels": 2, "symbolic": "every log time (full 64 bit)"},
 		},
-		outside:     append([]string{"more than 7 messages / 4 chunks (in particular: more than 12 pending message indexes, where a library sort may switch algorithm)", "combination with topic filters is decided in C04 (windows: one shape here, the rest in C04)"}, outsideCommon...),
+		outside:     append([]string{"more than 7 messages / 4 chunks with independent symbolic times; longer queues (up to 40 pending message indexes) only with times of the form base+pattern", "combination with topic filters is decided in C04 (windows: one shape here, the rest in C04)"}, outsideCommon...),
 		assumptions: append([]string{"while known finding C04-K1 is listed: no message log time equals 2^64-1"}, commonAssumptions...),
 	}
 }
